@@ -285,7 +285,11 @@ def make_case(rng, tier, feat=(), corrupt=None, mode=None, py2=False, nframes=No
             proto = rng.choice([0, 1, 2])
             p = py2_pickle(items, proto, rng)
         else:
-            proto = rng.choice([0, 1, 2, 3, 4]) if not modelable else (rng.choice([2, 3]) if big else rng.choice([2, 3, 4, 4]))
+            proto = rng.choice([0, 1, 2, 3, 4]) if not modelable else (rng.choice([1, 2, 3]) if big else rng.choice([0, 1, 2, 3, 4, 4]))
+            if modelable and proto == 0:
+                # protocol 0 writes these names verbatim (ASCII without NUL, LF, CR, SUB, backslash)
+                for j, d in enumerate(items):
+                    d["name"]["v"] = ("p0.%d.%s" % (j, rng.choice(["cpu", "a b", "q'x", "t;k=v", "x" * 200]))).encode().hex()
             if "latin1_p0" in feat:
                 proto = 0
             share = {} if rng.random() < .3 and not modelable else None
@@ -372,6 +376,20 @@ def pynum_coq(d):
     return "(PyInt %s)" % cN(int(d["v"])) if d["k"] == "i" else "(PyFloat %s)" % cN(int(d["v"]))
 
 
+def reprs_coq(case):
+    """repr() of the floats of the modelled protocol-0 frames, by bits (the oracle of Model/PyPickle.py_dumps0)"""
+    out, seen = [], set()
+    for fd in case["frames"]:
+        if fd.get("pickle") and fd["proto"] == 0:
+            for d in fd["items"]:
+                for k in ("ts", "val"):
+                    if d[k]["k"] != "i" and d[k]["v"] not in seen:
+                        seen.add(d[k]["v"])
+                        x = struct.unpack(">d", struct.pack(">Q", int(d[k]["v"])))[0]
+                        out.append(ctuple(cN(int(d[k]["v"])), cbytes(repr(x).encode())))
+    return clist(out, "(N * bytes)")
+
+
 def pymodel_coq(case):
     out = []
     for fd in case["frames"]:
@@ -394,9 +412,9 @@ def to_coq(case, obs):
     spec = None
     if case["spec"] is not None:
         spec = ctuple(clist([ev_coq(e) for e in case["spec"]["events"]], "ev"), cbool(case["spec"]["err"]))
-    return ("{| p_stream := %s; p_floats := %s; p_events := %s; p_err := %s; p_spec := %s; p_prefix := %s; p_py := %s |}"
+    return ("{| p_stream := %s; p_floats := %s; p_events := %s; p_err := %s; p_spec := %s; p_prefix := %s; p_py := %s; p_reprs := %s |}"
             % (cbytes(stream), floats, evs, cbool(obs["err"]), copt(spec, "(list ev * bool)"),
-               clist([ev_coq(e) for e in case["prefix"]], "ev"), pymodel_coq(case)))
+               clist([ev_coq(e) for e in case["prefix"]], "ev"), pymodel_coq(case), reprs_coq(case)))
 
 
 def nontrivial_key(case, obs):
@@ -450,13 +468,15 @@ def shrink(case):
 
 
 MANIFEST = {
-    "text": "Theorems (Props/C13.v): decoding (og-rek machine model) what CPython's pickler writes in protocol 2, 3 and 4 (Gallina models of the "
-            "pickler, compared byte for byte with pickle.dumps on every run) gives back the datapoints, and a connection of any number of such "
-            "frames, protocols mixed, hands on exactly the equivalent plain-text lines in order (induction over items and frames); per-item "
-            "conversion and invalid-item counting. Tie: real input.NewPickle(d).Handle behind a scripted reader, fed CPython pickles of "
-            "protocols 0-4, Python-2 style pickles, corrupted frames, every segmentation; expected lines computed from the Python-level data.",
-    "note": "partial: protocols 0 and 1, str/long fields, shared objects, multi-frame protocol-4 pickles and segmentation are covered by the "
-            "differential run against the VM model and the Python-level expectation, not by the round-trip theorem (protocols 2/3/4, non-negative "
-            "int32 and float fields, names below 2^31 bytes). bufio and og-rek are library code modelled in Model/PickleVM.v. Four library-level "
-            "defects are recorded as known findings. Trusted: Coq kernel+VM.",
+    "text": "Theorems (Props/C13.v): decoding (og-rek machine model) what CPython's pickler writes in protocols 0, 1, 2, 3 and 4 (Gallina models "
+            "of the pickler per protocol, compared byte for byte with pickle.dumps on every run) gives back the datapoints, and a connection of any "
+            "number of such frames, protocols 1-4 mixed, hands on exactly the equivalent plain-text lines in order (induction over items and "
+            "frames; protocol 0 per frame, given that ParseFloat(repr(x)) = x for the two float oracles); per-item conversion and invalid-item "
+            "counting. Tie: real input.NewPickle(d).Handle behind a scripted reader, fed CPython pickles of protocols 0-4, Python-2 style "
+            "pickles, corrupted frames, every segmentation; expected lines computed from the Python-level data.",
+    "note": "partial: str/long fields, negative integers (recorded finding), non-ASCII names in protocol 0 (recorded finding), shared objects, "
+            "multi-frame protocol-4 pickles and segmentation are covered by the differential run against the VM model and the Python-level "
+            "expectation, not by the round-trip theorems (non-negative int32 and float fields, names below 2^31 bytes; protocol 0: names of "
+            "verbatim ASCII). bufio and og-rek are library code modelled in Model/PickleVM.v. Four library-level defects are recorded as known "
+            "findings. Trusted: Coq kernel+VM; for protocol 0 the premise pf (frepr b) = Some b about CPython's repr and Go's ParseFloat.",
 }
